@@ -305,7 +305,7 @@ def run(ck, prog, ctx):
     pvn = Prov(prog, inline=False)
     F = lambda atoms: field_names(atoms, "Hypergeometric")
     new = prog.body(H + "new")
-    if ck.anchor("TABLE", "Hypergeometric::new", new):
+    if ck.anchor("TABLE", "Hypergeometric::new", new, private=True):
         for _, s in new.stmts():
             if s.k == "assign" and s.rv["k"] == "agg" and s.rv.get("adt", "").endswith("Hypergeometric"):
                 m = {f: params_of(pvn.of_operand(new, o), new.id) for f, o in zip(s.rv["fields"], s.rv["ops"])}
@@ -330,7 +330,7 @@ def run(ck, prog, ctx):
             fs = F(pvn.of_operand(mx, t.args[0])) | F(pvn.of_operand(mx, t.args[1]))
             ck.ob("TABLE", "max/fields", t.callee.method == "min" and fs == {"successes", "draws"}, "max = %s(%s)" % (t.callee.method, ", ".join(sorted(fs))), where=mx.where(t.line))
     sf = prog.body(H + "sf")
-    if ck.anchor("TABLE", "Hypergeometric::sf", sf):
+    if ck.anchor("TABLE", "Hypergeometric::sf", sf, private=True):
         fam = prog.family(sf)
         # boundaries
         bounds = []
@@ -454,7 +454,7 @@ def run(ck, prog, ctx):
                 ck.ob("TABLE", "sf/term/" + nm, nm in seen, "sf %s the term %s" % ("uses" if nm in seen else "LACKS", nm), where=sf.where())
     # ---- ln C(n, k): -inf exactly when k > n, otherwise ln n! - ln k! - ln (n-k)!
     lb = prog.body("stats::hypergeom::statrs::ln_binomial")
-    if ck.anchor("TABLE", "statrs::ln_binomial", lb):
+    if ck.anchor("TABLE", "statrs::ln_binomial", lb, private=True):
         from engines import compare_switches, relation_cases
         from expr import F as eF, sub as esub
         cmps = []
@@ -506,7 +506,7 @@ def run(ck, prog, ctx):
     # ---- ln Gamma (used for every factorial argument above the table): Lanczos approximation, g = 10.900511, 11 coefficients
     STAT = "stats::hypergeom::statrs::"
     lg = prog.body(STAT + "ln_gamma")
-    if ck.anchor("TABLE", "statrs::ln_gamma", lg):
+    if ck.anchor("TABLE", "statrs::ln_gamma", lg, private=True):
         import math
         from engines import compare_switches as _cs
         from expr import F as eF, sub as esub, add as eadd, mul as emul, C as eC
